@@ -60,6 +60,10 @@ def r1(ctx):
             changes.append((n, "rollback clean-up"))
     ctx.require(len(changes) >= 3, f"C12.R1: expected >=3 state changes in notify_status, found {len(changes)}")
     for n, what in changes:
+        if what == "resource release":
+            aw = all(isinstance(getattr(c, "_parent", None), ast.Await) for c in n.calls() if isinstance(c.func, ast.Attribute) and c.func.attr == "_free_resources")
+            ctx.ob("R1", "the release completes (is awaited) before waiters are notified", aw, func=f, node=n.ast, instance="notify-after:release-awaited",
+                   message="_free_resources is started but not awaited before notify_all(): waiters re-test while the capacity is still reserved and nobody wakes them again")
         w = g.path(n.id, exits + [g.exit], avoid=nids, kinds=NORMAL)
         ctx.ob("R1", f"{what} `{n.text(50)}` is followed by notify_all() before the lock is released", w is None, func=f, node=n.ast,
                instance=f"notify-after:{what}", message=f"{what} can leave the lock scope without notify_all(): waiters that now fit are not woken up",
@@ -103,6 +107,10 @@ def r2(ctx):
     esc = g.path(w.id, [g.exit], avoid=sched_tests + alloc, kinds=NORMAL)
     ctx.ob("R2", "the waiting loop is left only after the `scheduled` test or an allocation", esc is None, func=f, node=w.ast,
            instance="wait:exits", message="the waiter can give up without having been scheduled", witness=g.describe(esc) if esc else [])
+    stale = g.path(w.id, alloc, avoid=sched_tests, kinds=NORMAL)
+    ctx.ob("R2", "after a wake-up the `scheduled` flag is re-tested before allocating", stale is None, func=f, node=w.ast, instance="wait:rescheduled-test",
+           message="a target task that slept does not re-test `scheduled`: the job is allocated again on a second target after a sibling task already placed it",
+           witness=g.describe(stale) if stale else [])
     back = g.path(w.id, vids, kinds=NORMAL)
     ctx.ob("R2", "after a wake-up the capacity test is evaluated again", back is not None, func=f, node=w.ast, instance="wait:retest")
     # timeout of the wait is absorbed (stays in the loop)
@@ -154,11 +162,15 @@ def r3(ctx):
 
 
 RULES = [("R1", r1), ("R2", r2), ("R3", r3)]
-FLOORS = {"R1": 4, "R2": 7, "R3": 4}
+FLOORS = {"R1": 5, "R2": 8, "R3": 4}
 
 NS = f"{SCHED}.notify_status"
 PT = f"{SCHED}._process_target"
 VARIANTS = [
+    V("release detached into a task", SFILE, NS, "await self._free_resources(connector, job_allocation)", "asyncio.create_task(self._free_resources(connector, job_allocation))", "R1"),
+    V("scheduled test hoisted out of the retry loop", SFILE, PT,
+      "while True:\n            async with job_context.lock:\n                if job_context.scheduled:\n                    return",
+      "if job_context.scheduled:\n            return\n        while True:\n            async with job_context.lock:", "R2"),
     V("notify_all removed", SFILE, NS, "self.wait_queue.notify_all()", "pass", "R1", control=True),
     V("notify_all only on rollback", SFILE, NS, "            job_allocation.locations.clear()\n            self.wait_queue.notify_all()", "            job_allocation.locations.clear()\n                self.wait_queue.notify_all()", "R1"),
     V("notify_all before release", SFILE, NS, "if status != previous_status and (previous_status", "self.wait_queue.notify_all()\n            if status != previous_status and (previous_status", None),
